@@ -1,9 +1,34 @@
 (** C04 — apply/start run exactly the requested invocations.  Property theorem only. *)
-From TP Require Import PSpec PRun PWF PProps_B PProps_B_inv PExamples.
+From TP Require Import PSpec PRun PWF PProps_B PProps_B_inv PRest PRest_nc PExamples.
 
 Theorem C04 : forall c tr, clean (run c tr) -> C04_spec (run c tr).
 Proof.
   intros c tr Hc. destruct (WFx_run c tr Hc). apply C04_of_WFx; assumption.
+Qed.
+
+(** No invocation is lost: whenever the loop goes idle with nothing running (pool size not 0),
+    every spawner has finished, every task is done, the whole capacity is free — and every
+    request whose group was not cancelled has made exactly the invocations it was asked for
+    (map family: one per non-bad element of the whole iterable). *)
+Theorem C04_nothing_stranded : forall c tr,
+  clean (run c tr) -> taint_size (run c tr) = false -> cf_size (cfg (run c tr)) <> Fin 0 ->
+  at_rest (run c tr) ->
+  (forall m y, get_m (run c tr) m = Some y -> m_final y <> None) /\
+  (forall t x, get_p (run c tr) t = Some x -> p_pc x = PDone) /\
+  sem_value (run c tr) = cf_size (cfg (run c tr)) /\ sem_waiters (run c tr) = [].
+Proof. exact no_work_stranded_run. Qed.
+
+Theorem C04_complete_at_rest : forall c tr,
+  clean (run c tr) -> taint_size (run c tr) = false -> taint_iter (run c tr) = false ->
+  cf_size (cfg (run c tr)) <> Fin 0 -> at_rest (run c tr) ->
+  forall m y, get_m (run c tr) m = Some y -> m_dead y = false ->
+    match m_kind y with
+    | MMap _ => m_idx y = length (m_els y) /\
+                tasks_of (run c tr) m + count e_bad (m_els y) = length (m_els y)
+    | _ => tasks_of (run c tr) m = (if m_bad y then 0 else m_num y)
+    end.
+Proof.
+  intros c tr Hc. apply requests_complete_at_rest; [now apply WFx_run|apply Extra_nc_run].
 Qed.
 
 Example C04_example :
@@ -12,3 +37,5 @@ Example C04_example :
 Proof. vm_compute. repeat split; reflexivity. Qed.
 
 Print Assumptions C04.
+Print Assumptions C04_nothing_stranded.
+Print Assumptions C04_complete_at_rest.
